@@ -8,7 +8,10 @@
    left to toggle), C19-2 (invariant observer skips events without ObjectiveValue) and the series C19-3 .. C19-13 (NullModel's variable
    map; trial initialisation of the model at interpretation time reporting load errors, missing tables, panics and a limit that excludes
    nothing; DecisionVariable checked against the model; negative RunNumber; concurrency slots; output path / EXCEL / profile directory
-   checked by the scenario interpreter).  What the loops did BEFORE C19-1 is stated at the end.
+   checked by the scenario interpreter) and the series C19c-1 .. C19c-5 (documents whose PARTS refer to each other: the log formatter
+   takes floats too large to round; a CpuProfilePath in the way of the OutputPath or naming one of the model's data files is refused; a
+   data source whose Gullies table names an unlisted subcatchment is refused; the summary file stem keeps the run marker whatever the
+   scenario name).  What the loops did BEFORE C19-1 is stated at the end.
 
    LEVEL: proof, PARTIAL -- the theorems are about the composition of the MODELLED components.  A panic inside code that is not
    transcribed (TOML decoder, logging back-ends, CPU profiler, Excel paths, CSV/JSON encoders) can only be met by the
@@ -68,8 +71,11 @@ Proof. exact accepted_counts. Qed.
 Theorem C19_acceptance_gives_shape : forall F T E l sc, interpret F T E l = Done sc -> accepted_shape E l sc.
 Proof. exact interpret_done. Qed.
 
-(* PARTIAL: the remaining hypotheses, the boolean [run_preconditions E sc] (ConfigSpec.v), say NOTHING about the configuration any more:
-     - run-time environment: the saver can create its directory and files ([e_out_usable]); the profile file can be created ([e_profile_ok]);
+(* PARTIAL: the remaining hypotheses, the boolean [run_preconditions E sc] (ConfigSpec.v):
+     - two LISTED FINDINGS about the configuration: a dumb model's InitialObjectiveValue within math.RoundFloat's range ([dumb_round_ok]:
+       IsDecimal puts no bound on it) and a scenario name that fits a file name ([e_file_creatable] of every run's [summary_name]);
+     - run-time environment: the saver can create its directory and files ([e_out_usable]); the profile file can be created ([e_profile_ok];
+       listed finding: a CpuProfilePath naming an existing directory is accepted and Run() returns an error);
      - a catchment model's constants, as derived from the loaded tables, form a well-formed data set ([wf_dataset], evaluated by computation
        on every data set the harness loads: the derivation itself is not verified) and the optimisers' starting extreme satisfies the limit
        ([limit_attainable]; as in C03 -- without it the proof has no valid state to start from; no failing run is known);
@@ -80,13 +86,39 @@ Theorem C19_accepted_runs_partial : forall F T, facts_ok F = true -> tables_ok T
   load F c = Done l -> interpret F T E l = Done sc ->
   run_preconditions E sc = true -> choices_ok sc choices ->
   exists summaries, run_model E sc choices T0 a = Completed summaries /\ List.length summaries = Z.to_nat (l_run_number l)
-                    /\ (1 <= l_run_number l)%Z.
+                    /\ (1 <= l_run_number l)%Z
+                    (* ... one result PER RUN: run r writes [summary_name sc r], and no two runs write the same file (CSV / JSON output;
+                       the Excel paths are not modelled) -- for EVERY scenario name (C19c-5) *)
+                    /\ summaries = map (summary_name sc) (seq 1 (Z.to_nat (l_run_number l)))
+                    /\ (writes_files sc = true -> NoDup summaries).
 Proof. exact accepted_runs. Qed.
+
+(* the naming fact behind it, for every scenario name, every number of runs > 1 and both file encoders *)
+Theorem C19_runs_write_distinct_files : forall sc r1 r2, writes_files sc = true -> (1 < Z.to_nat (s_runs sc))%nat ->
+  summary_name sc r1 = summary_name sc r2 -> r1 = r2.
+Proof. exact summary_name_inj. Qed.
+
+(* a catchment data source that is given by its three tables is only accepted when they agree with each other: every cell the model
+   reads is a number, there is a subcatchment, every gully lies in a listed subcatchment (C19c-4), every Hillslope / Gully / Riparian
+   action row belongs to a listed subcatchment *)
+Theorem C19_accepted_tables_are_consistent : forall F T E l mp m sh d0,
+  interpret_model_part F T E l = Ok mp -> mp_model mp = Some m ->
+  (exists m0, interpret_model F T E l = Some m0 /\ mb_kind m0 = MKCatchment /\ data_of E m0 = DataTables sh d0) ->
+  shape_ok sh = true.
+Proof. exact model_part_tables_sound. Qed.
 
 (* ... and the full statement stays false of the faithful model for the run-time environment alone: an output directory that cannot be
    created when the first run finishes makes the saver panic (confirmed on the real code: hazard class output-directory-cannot-be-created) *)
 Theorem C19_accepted_runs_refuted : ~ C19_accepted_runs_statement.
 Proof. exact accepted_runs_refuted. Qed.
+
+(* ... and for one class of configurations even in a usable environment (listed finding dumb-initial-objective-beyond-roundfloat-range,
+   confirmed on the real code): DumbModel with InitialObjectiveValue = 2^1020 is accepted and every run panics in math.RoundFloat *)
+Theorem C19_accepted_runs_refuted_in_a_usable_environment :
+  exists l sc, load ref_facts dumb_beyond_range = Done l /\ interpret ref_facts ref_tables ref_env l = Done sc /\
+               e_out_usable ref_env (s_out_path sc) = true /\
+               run_model ref_env sc (fun _ => ref_choice) 1%float 1%float = RunCrash.
+Proof. exact accepted_runs_refuted_in_a_usable_environment. Qed.
 
 (* the pieces *)
 Theorem C19_observers_never_panic : forall sc e cur, (1 <= s_modulo sc)%Z -> observers_ok sc e cur = true.
@@ -108,7 +140,8 @@ Proof. exact binding_no_panic. Qed.
 Theorem C19_every_run_completes : forall E l sc r ch T0 a,
   (1 <= s_modulo sc)%Z -> accepted_shape E l sc -> run_preconditions E sc = true ->
   match dataset_of sc with Some d => choice_ok d ch | None => True end ->
-  exists f, run_one E sc r ch T0 a = R1Files f.
+  files_creatable E sc r ->
+  run_one E sc r ch T0 a = R1Files (summary_name sc r).
 Proof. exact run_one_completes. Qed.
 
 (* ---- non-vacuity: a document meeting every hypothesis, for the single- and the multi-objective annealer, under a binding limit *)
@@ -188,6 +221,39 @@ Example C19_regression_limit_not_binding :                                      
     = VInterpretErrors [ELimitNotBinding].
 Proof. vm_compute. split; reflexivity. Qed.
 
+(* the four configuration classes of the series C19c (each confirmed on the real code by harness/c19.go before the fixes) *)
+Example C19_regression_large_floats :                                                  (* C19c-1: 2^1006 ~ 1e303 is logged and saved *)
+  verdict_of (doc "P" "Kirkpatrick" [("MaximumIterations", VInt 3); ("DecisionVariable", VString "ObjectiveValue")]
+                  "DumbModel" [("InitialObjectiveValue", VFloat (Base.Fl.fl 1 1006))])
+    = VRun (Completed ["P-Summary.csv"]).
+Proof. vm_compute. reflexivity. Qed.
+
+Example C19_regression_path_collisions :                                               (* C19c-2, C19c-3 *)
+  verdict_of (with_profile "out" (kp_catchment ex_limit)) = VInterpretErrors [EProfileBlocksOutput]
+  /\ verdict_of (with_profile "./t/../out" (kp_catchment ex_limit)) = VInterpretErrors [EProfileBlocksOutput]
+  /\ verdict_of (with_output "prof/out" Absent (with_profile "prof" (kp_catchment ex_limit))) = VInterpretErrors [EProfileBlocksOutput]
+  /\ verdict_of (with_output "" Absent (with_profile "solutions" (kp_catchment ex_limit))) = VInterpretErrors [EProfileBlocksOutput]
+  /\ verdict_of (with_profile "out2" (kp_catchment ex_limit)) = VRun (Completed ["P-Summary.csv"])
+  /\ verdict_of (with_profile "data.csv" (kp_catchment ex_limit)) = VInterpretErrors [EProfileOverwritesInput]
+  /\ verdict_of (with_profile "t/gullies.csv" (supp_catchment [("DataSourcePath", VString "tables.csv")]))
+     = VInterpretErrors [EProfileOverwritesInput]
+  /\ verdict_of (with_profile "t/prof" (supp_catchment [("DataSourcePath", VString "tables.csv")])) = VRun (Completed ["P-Summary.csv"]).
+Proof. vm_compute. repeat split; reflexivity. Qed.
+
+Example C19_regression_dangling_gully :                                                (* C19c-4 *)
+  shape_ok ref_shape = true /\ gullies_known ref_shape_dangling = false
+  /\ verdict_of (supp_catchment [("DataSourcePath", VString "tables.csv")]) = VRun (Completed ["P-Summary.csv"])
+  /\ verdict_of (supp_catchment [("DataSourcePath", VString "dangling.csv")]) = VInterpretErrors [EModelData].
+Proof. vm_compute. repeat split; reflexivity. Qed.
+
+Example C19_regression_scenario_names :                                                (* C19c-5: one file per run, whatever the name *)
+  verdict_of (with_runs 3 (doc "x Solution (1/2) y" "Suppapitnarm" [("MaximumIterations", VInt 3)] "DumbModel" []))
+    = VRun (Completed ["xSolution(1_of_2)y(1_of_3)-Summary.csv"; "xSolution(1_of_2)y(2_of_3)-Summary.csv";
+                       "xSolution(1_of_2)y(3_of_3)-Summary.csv"])
+  /\ verdict_of (with_runs 2 (doc "Solution(" "Suppapitnarm" [("MaximumIterations", VInt 3)] "DumbModel" []))
+    = VRun (Completed ["Solution((1_of_2)-Summary.csv"; "Solution((2_of_2)-Summary.csv"]).
+Proof. vm_compute. split; reflexivity. Qed.
+
 (* ================================================================================================================ *)
 (* 4. D14b: what the randomisation loops do in /repo BEFORE fix C19-1 (ConfigLoops.rand_loop_old; = Limits.rand_loop until the Coq patch of C19-1 is applied)        *)
 (* ================================================================================================================ *)
@@ -222,6 +288,9 @@ Print Assumptions C19_acceptance_gives_positive_counts.
 Print Assumptions C19_acceptance_gives_shape.
 Print Assumptions C19_accepted_runs_partial.
 Print Assumptions C19_accepted_runs_refuted.
+Print Assumptions C19_accepted_runs_refuted_in_a_usable_environment.
+Print Assumptions C19_runs_write_distinct_files.
+Print Assumptions C19_accepted_tables_are_consistent.
 Print Assumptions C19_observers_never_panic.
 Print Assumptions C19_loop_keeps_the_limit.
 Print Assumptions C19_loop_ends_under_fair_picks.
